@@ -82,7 +82,16 @@ fn check_break_assignment(context: &CheckerContext) -> GenericResult<()> {
         let arrival = tour
             .stops
             .last()
-            .map(|stop| parse_time(&stop.schedule().arrival))
+            .map(|stop| {
+                // NOTE: when last stop has many activities, the last one is reached once its predecessor is done
+                stop.activities()
+                    .iter()
+                    .rev()
+                    .nth(1)
+                    .and_then(|activity| activity.time.as_ref())
+                    .map(|time| parse_time(&time.end))
+                    .unwrap_or_else(|| parse_time(&stop.schedule().arrival))
+            })
             .ok_or_else(|| GenericError::from(format!("cannot get arrival for tour '{}'", tour.vehicle_id)))?;
 
         let tour_tw = TimeWindow::new(departure, arrival);
